@@ -26,6 +26,8 @@ rsync -a --exclude .git --exclude out --exclude bin --exclude evidence /verif/ $
 RES=""
 for P in "$@"; do
   (cd $S/verif && VERIF_REPO=$S/repo ./check $P --tier ${TIER:-quick} > $S/check_$P.log 2>&1); C=$?
+  # exit 1 counts as a detection only with a VIOLATION line (a failed cd / fork under load must not look like one)
+  if [ $C -eq 1 ] && ! grep -q "^VIOLATION property=" $S/check_$P.log; then C=2; fi
   SIGS=$(grep -o "finding-[A-Za-z0-9_.-]*" $S/check_$P.log | sed 's/finding-//; s/.json//' | sort -u | tr '\n' ',' )
   RES="$RES\"$P\":{\"exit\":$C,\"signatures\":\"$SIGS\"},"
 done
